@@ -37,7 +37,7 @@ ANCHORS = [
 ]
 REQUIRED = ["q:aggregate_current", "q:aggregate_power", "q:constraint_currents", "q:constraint_currents_reordered",
             "q:constraint_currents_duplicates", "q:energy", "q:demands_met", "q:demands_met_threshold_below_full_cut_discriminating", "q:unbalance", "q:unbalance_nan_positions",
-            "q:datetimes", "q:datetimes_partial_run", "regime:hetero-voltage", "regime:mixed-sign", "regime:constraint-free"]
+            "q:datetimes", "runs_longer_than_8192_periods", "q:datetimes_partial_run", "regime:hetero-voltage", "regime:mixed-sign", "regime:constraint-free"]
 BUDGET_S = {"quick": 240, "thorough": 3000}
 
 
@@ -56,6 +56,21 @@ def cases(seed, tier):
         # constraints registered in a shuffled order so that network order != alphabetical / descriptor-sorted order
         rng.shuffle(d["network"]["constraints"])
         out.append({"desc": d, "qseed": rng.randrange(1 << 30)})
+    # very long trajectories (a month of 5-minute periods and more): sessions charging near the end as well
+    for _ in range(1 if tier == "quick" else 6):
+        d = gen.scenario(rng, sched="scripted", nmax=4, sess_max=5, constraint_free_p=0.0, mr=1, max_len=1, p_empty=0.0, p_st=1.0, mode="full",
+                         kinds=("EVSE",), big=True)
+        H = rng.choice([8200, 8928, 16500])
+        off = {}
+        for k, s_ in enumerate(sorted(d["sessions"], key=lambda x: (x["station"], x["arrival"]))):
+            base = off.get(s_["station"], rng.choice([0, H // 3]))
+            s_["arrival"] = base + rng.randint(0, 40)
+            s_["departure"] = s_["est_dep"] = min(H, s_["arrival"] + rng.randint(H // 3, H // 2))
+            off[s_["station"]] = s_["departure"]
+        last = max(d["sessions"], key=lambda x: x["departure"])
+        last["departure"] = last["est_dep"] = H
+        d["recompute"] = []
+        out.append({"desc": d, "qseed": rng.randrange(1 << 30), "long": True})
     return out
 
 
@@ -229,6 +244,8 @@ def run_case(case, obs):
             if len(da2) != sim2.iteration or any(a != b for a, b in zip(da2, exp2)):
                 obs.violate("analysis:datetimes_partial", f"run stopped in period {k}: len {len(da2)} vs iteration {sim2.iteration}", **wit)
 
+    if case.get("long"):
+        obs.ev("runs_longer_than_8192_periods" if sim.iteration > 8192 else "long_runs")
     hetero = len(set(V)) > 1
     if hetero:
         obs.regime("regime:hetero-voltage")
